@@ -152,6 +152,18 @@ notequal(const Euler<T> &e0, const Euler<T> &e1)
         return false;
 }
 
+// Element operators of the EulerArray comparisons: same semantics as the
+// scalar __eq__/__ne__ above.
+template <class T>
+struct op_eulerEqual {
+    static inline int apply(const Euler<T> &a, const Euler<T> &b) { return equal(a, b); }
+};
+
+template <class T>
+struct op_eulerNotEqual {
+    static inline int apply(const Euler<T> &a, const Euler<T> &b) { return notequal(a, b); }
+};
+
 template <class T>
 static IMATH_NAMESPACE::Vec3 <int> getAngleOrder(Euler <T> &euler)
 {
@@ -860,7 +872,12 @@ register_EulerArray()
         .def("toQuat", EulerArray_toQuat<T>)
         ;
 
-    add_comparison_functions(eulerArray_class);
+    // Compare like the scalar Euler binding does (angles and rotation order);
+    // the generic op_eq/op_ne would compare the Vec3 base only.
+    generate_member_bindings<op_eulerEqual<T>, boost::mpl::true_>
+        (eulerArray_class,"__eq__","self==x",boost::python::args("x"));
+    generate_member_bindings<op_eulerNotEqual<T>, boost::mpl::true_>
+        (eulerArray_class,"__ne__","self!=x",boost::python::args("x"));
     PyImath::add_explicit_construction_from_type<IMATH_NAMESPACE::Matrix33<T> >(eulerArray_class);
     PyImath::add_explicit_construction_from_type<IMATH_NAMESPACE::Matrix44<T> >(eulerArray_class);
     return eulerArray_class;
